@@ -347,16 +347,20 @@ pub fn drive(
     } else {
         sc.bufcap
     };
-    let mut buf: Vec<u8> = Vec::new();
+    // The receiver's buffer does not start at the beginning of its allocation: a few bytes of
+    // an earlier message sit in front of it (0..7, fixed per scenario), so the slice handed to
+    // the parser has a varying alignment and is preceded by unrelated bytes.
+    let headroom = (sc.stream.len() + 3 * sc.events.len() + sc.bufcap) % 8;
+    let mut backing: Vec<u8> = vec![0x5a; headroom];
     let mut available = 0usize; // bytes sitting in the socket
     let mut sent = 0usize; // bytes of sc.stream the transport has released
     let mut read = 0usize; // bytes of sc.stream the receiver has read
     let mut end = RunEnd::default();
     let mut seq = 0u64;
-    let mut keep_going = true;
+    let mut keep_going;
 
     let do_read = |buf: &mut Vec<u8>, available: &mut usize, read: &mut usize| -> usize {
-        let space = cap.saturating_sub(buf.len());
+        let space = cap.saturating_sub(buf.len() - headroom);
         let want = match sizing {
             ReadSizing::Fill => space,
             ReadSizing::AtMost(k) => space.min(k.max(1)),
@@ -373,7 +377,7 @@ pub fn drive(
         let info = StepInfo {
             event_index: usize::MAX,
             event: Ev::Deliver(0),
-            buf: &buf,
+            buf: &backing[headroom..],
             consumed_from_stream: 0,
             seq,
         };
@@ -390,12 +394,12 @@ pub fn drive(
                 let n = n.min(sc.stream.len() - sent);
                 sent += n;
                 available += n;
-                if buf.len() >= cap {
+                if backing.len() - headroom >= cap {
                     end.buffer_full = true;
                     end.ended_by = "buffer_full";
                     break;
                 }
-                do_read(&mut buf, &mut available, &mut read);
+                do_read(&mut backing, &mut available, &mut read);
                 end.reads += 1;
             }
             Ev::Eintr => {
@@ -414,7 +418,7 @@ pub fn drive(
         let info = StepInfo {
             event_index: i,
             event: *ev,
-            buf: &buf,
+            buf: &backing[headroom..],
             consumed_from_stream: read,
             seq,
         };
@@ -427,11 +431,11 @@ pub fn drive(
     }
     // drain: reads continue until the socket is empty (or the buffer is full)
     while keep_going && available > 0 {
-        if buf.len() >= cap {
+        if backing.len() - headroom >= cap {
             end.buffer_full = true;
             break;
         }
-        let n = do_read(&mut buf, &mut available, &mut read);
+        let n = do_read(&mut backing, &mut available, &mut read);
         end.reads += 1;
         if n == 0 {
             break;
@@ -439,7 +443,7 @@ pub fn drive(
         let info = StepInfo {
             event_index: usize::MAX,
             event: Ev::Deliver(n),
-            buf: &buf,
+            buf: &backing[headroom..],
             consumed_from_stream: read,
             seq,
         };
